@@ -117,16 +117,18 @@ func verifFind(peers []*core.PeerInfo, p *core.PeerInfo) *core.PeerInfo {
 // again as complete is returned once, complete.
 func VerifStoreRoundTrip() {
 	verif.Option("panic_is_violation", 1)
-	r := &verifRedis{sets: map[string][]string{}, rotate: verif.Choice("srandmember_rotation", 2)}
+	r := &verifRedis{sets: map[string][]string{}, rotate: 1}
 	clk := clock.NewMock()
 	clk.Set(time.Unix(1000, 0))
 	s := verifStore(r, clk)
 	var h core.InfoHash
 	h[3] = 0xab
 
-	p1 := verifSymPeer("p", false)
-	p2 := verifSymPeer("q", false)
-	verif.Assume(verif.Or(p1.PeerID != p2.PeerID, p1.IP != p2.IP, p1.Port != p2.Port))
+	// p1 is symbolic (the value space is covered by the codec harnesses; here
+	// the address is short), p2 is a fixed second peer with a symbolic flag.
+	p1 := verifSymPeerN("p", false, 1, verif.Bound("store_ip_min", 1, 0), verif.Bound("store_ip_max", 2, 4))
+	p2 := core.NewPeerInfo(p1.PeerID, "10.0.0.2", 7001, false, verif.Bool("q_complete"))
+	verif.Assume(verif.Or(p1.IP != p2.IP, p1.Port != p2.Port))
 
 	verif.Assert("update-1", s.UpdatePeer(h, p1) == nil)
 	if verif.Bool("advance_window") {
